@@ -12,6 +12,7 @@ import (
 	"errors"
 	"fmt"
 	"io"
+	"strings"
 	"sync"
 	"time"
 
@@ -365,6 +366,17 @@ func (n *simNode) selfPending(target int) int {
 	return c
 }
 
+// reqLogged: entries of the request log (target, next) for this target.
+func (n *simNode) reqLogged(target int) int {
+	c, pre := 0, ids[target].overlay.String()
+	for _, k := range n.svc.VerifPendingCalls().VerifReqKeys() {
+		if strings.HasPrefix(k, pre) {
+			c++
+		}
+	}
+	return c
+}
+
 const (
 	longFindTimeout  = 30 * time.Second
 	shortFindTimeout = 2 * time.Millisecond
@@ -375,13 +387,15 @@ const (
 // response, `during` is called while it is parked: the caller delivers messages (to this or other
 // nodes).  If no response for the target has signalled the waiting FindRoute when `during`
 // returns, the handler's context is cancelled (FindRoute gives up exactly as on its timeout).
-// Returns whether the handler was parked.  nForward = expectForward(target).
+// Returns whether the handler was parked.  nForward = expectForward(target).  The caller has emptied the
+// node's capturing streamer or knows what is in it (streams opened from now on are the discovery's requests).
 func (n *simNode) relayRun(name string, from int, msg protobuf.Message, target, nForward int, during func()) (parked bool) {
 	routetab.VerifSetFindTimeout(longFindTimeout)
 	defer routetab.VerifSetFindTimeout(shortFindTimeout)
 	ctx, cancel := context.WithCancel(context.Background())
 	defer cancel()
 	done := make(chan struct{})
+	base, logged := n.str.count(), n.reqLogged(target)
 	h := n.handler(name)
 	in := inStream(msg)
 	go func() {
@@ -389,7 +403,7 @@ func (n *simNode) relayRun(name string, from int, msg protobuf.Message, target, 
 		_ = h(ctx, p2p.Peer{Address: ids[from].overlay, Mode: full}, in)
 	}()
 	deadline := time.Now().Add(5 * time.Second)
-	stable, last := 0, -1
+	seen := 0
 wait:
 	for {
 		select {
@@ -397,17 +411,16 @@ wait:
 			return false
 		default:
 		}
-		if nForward > 0 && n.selfPending(target) >= nForward {
-			// every request is registered; the last stream is opened right after the last registration
-			if c := n.str.count(); c == last {
-				stable++
-			} else {
-				stable, last = 0, c
-			}
-			if stable >= 4 {
+		// every request is registered (one pending entry per neighbour asked) and every request that had
+		// to be sent (no request for (target, next) was logged before) has its stream: FindRoute is waiting
+		// (seen on two consecutive polls: Add registers the entry just before it logs the request)
+		if nForward > 0 && n.selfPending(target) >= nForward && n.str.count() >= base+n.reqLogged(target)-logged {
+			if seen++; seen >= 2 {
 				parked = true
 				break wait
 			}
+		} else {
+			seen = 0
 		}
 		if time.Now().After(deadline) {
 			break wait
